@@ -118,4 +118,53 @@ theorem classify_all_empty (lo hi : BndN) (colMin colMax : Nat) (full : Bool) :
   · intro h v h1 h2 h3
     rw [← classify_sound lo hi colMin colMax full v h1 h2 h3, h]; rfl
 
+/-! ### document level -/
+
+theorem any_congr' (vs : List Nat) (f g : Nat → Bool) (h : ∀ v ∈ vs, f v = g v) :
+    vs.any f = vs.any g := by
+  induction vs with
+  | nil => rfl
+  | cons a t ih =>
+    simp only [List.any_cons]
+    rw [h a (List.mem_cons_self ..), ih (fun v hv => h v (List.mem_cons_of_mem _ hv))]
+
+theorem selectsDoc_eq (k : Kind) (vs : List Nat) (h : k = .all → vs ≠ []) :
+    k.selectsDoc vs = vs.any k.selects := by
+  cases k with
+  | empty =>
+    simp only [Kind.selectsDoc]
+    clear h
+    induction vs with
+    | nil => rfl
+    | cons a t ih => simp only [List.any_cons, Kind.selects, Bool.false_or]; exact ih
+  | all =>
+    cases vs with
+    | nil => exact absurd rfl (h rfl)
+    | cons a t => simp [Kind.selectsDoc, Kind.selects]
+  | range st en => rfl
+
+/-- with the shortcut restricted to Full columns, whatever scorer `search_on_u64_ff` builds selects
+a document iff one of the document's own values lies within the bounds — in particular a document
+without a value is never selected -/
+theorem classifyC_doc_sound (sc : Shortcut) (hO : sc.onOptional = false) (hM : sc.onMultivalued = false)
+    (lo hi : BndN) (colMin colMax : Nat) (card : Card) (vs : List Nat)
+    (hcard : card.admits vs) (hvs : ∀ v ∈ vs, colMin ≤ v ∧ v ≤ colMax ∧ v ≤ U64MAX) :
+    (classifyC sc lo hi colMin colMax card).selectsDoc vs = vs.any (inRangeN lo hi) := by
+  unfold classifyC
+  have hall : classify lo hi colMin colMax (sc.on card) = .all → vs ≠ [] := by
+    intro h
+    have hb := ((classify_all_empty lo hi colMin colMax (sc.on card)).1 h).1
+    cases card with
+    | full =>
+      intro hnil
+      rw [hnil] at hcard
+      simp [Card.admits] at hcard
+    | optional => simp only [Shortcut.on] at hb; rw [hO] at hb; cases hb
+    | multivalued => simp only [Shortcut.on] at hb; rw [hM] at hb; cases hb
+  rw [selectsDoc_eq _ vs hall]
+  apply any_congr'
+  intro v hv
+  have h := hvs v hv
+  exact classify_sound lo hi colMin colMax (sc.on card) v h.1 h.2.1 h.2.2
+
 end TantivyModel.FastRange
